@@ -81,7 +81,8 @@ func VH_C14() {
 	std := logslog.New(&handler4LogSlog{&logimp{lg}})
 	bridge := NewLogLogger(&logimp{lg}, AlwaysLevel) // a severity the bridge forwards whatever its admission test (C15)
 	if kind != 3 {
-		lg.SetSkip(n) // after the adapter and the bridge exist: the skip count in force is the logger's current one
+		lg.SetSkip(vChoose(3)) // an earlier setting, replaced by the next one (also back to 0)
+		lg.SetSkip(n)          // after the adapter and the bridge exist: the skip count in force is the logger's current one
 	}
 	stackErr := vC14MakeErr()
 	eps := []func(){
